@@ -116,3 +116,15 @@ CHECKS["C13"] = _resmgr("C13",
     "a rejected update leaves containers, zones and policy state untouched and - twin execution on a second real instance without the rejected updates - later decisions identical; after an accepted update all C01-C05/C02/C09 clauses hold; "
     "non-trivial = states with at least two live containers",
     "5 scenarios x 6-9 configurations, depth 4", "5 scenarios, depth 5")
+
+CHECKS["C10"] = dict(
+    level="fault_enumeration", engine="crashx",
+    technique="explicit-state search over cache operation histories; for every save of every history: enumeration of every crash point (each primitive filesystem step, each byte offset of a write into the cache file) and every single step failure through an os shim; exhaustive permission matrix",
+    rule="all histories of 18 cache operations up to the depth bound on a real cache; per save: the directory state at every primitive-step boundary and at every byte offset of a write that targets the cache file itself "
+         "(offsets of writes into the temporary file leave the cache file untouched and are reloaded at the first, middle and last byte only) is materialised and loaded with NewCache; every primitive step is made to fail once "
+         "(EIO, also with short writes); target x kind x all 512 modes for the permission clause; non-trivial = histories containing a container / refused permission cases",
+    bound=dict(quick="depth 3 histories; 7680 permission cases", thorough="depth 4 histories; 7680 permission cases"),
+    assumptions=["crash = process kill or failed system call (no power-loss / unsynced-data model; the code does not fsync)",
+                 "filesystem steps not made through the intercepted os functions of cache.go are seen only at step boundaries"],
+    stages=[dict(pkg="./pkg/resmgr/cache", run="TestVerifC10", shards=16)],
+)
